@@ -360,9 +360,11 @@ class CSSSerializer:
 
     def _linenumnbers(self, text):
         if self.prefs.lineNumbers:
-            pad = len(str(text.count(self.prefs.lineSeparator) + 1))
+            sep = self.prefs.lineSeparator
+            lines = text.split(sep) if sep else [text]
+            pad = len(str(len(lines)))
             out = []
-            for i, line in enumerate(text.split(self.prefs.lineSeparator)):
+            for i, line in enumerate(lines):
                 out.append(('%*i: %s') % (pad, i + 1, line))
             text = self.prefs.lineSeparator.join(out)
         return text
